@@ -26,14 +26,15 @@ STATE_MEASURE = "distinct (metric, online_scaling, num_pcs, phase, state) tuples
 WHITE_BOX = ["PCACD._change_score (score history; decisions and num_pcs are compared without it)"]
 
 
-HEAVY = ["marathon", "long_step"]
+HEAVY = ["marathon", "long_step", "wide"]
 
 
 def scenarios(tier):
     k = 1 if tier == "quick" else 8
     # "marathon" (quick: ~1500 checks, thorough: ~4000): one epoch with thousands of checks (anything that saturates or is trimmed after ~1000
     # Page-Hinkley updates only shows there)
-    return [("stream", 300 * k), ("repeat", 80 * k), ("long_step", 8 * k), ("marathon", 3 if tier == "quick" else 8)]
+    # "wide": 10-14 features of unequal spread with ev_threshold 0.999, so that ten or more principal components are retained
+    return [("stream", 300 * k), ("repeat", 80 * k), ("long_step", 8 * k), ("marathon", 3 if tier == "quick" else 8), ("wide", 6 * k)]
 
 
 def gen(rng, scenario, tier):
@@ -54,6 +55,14 @@ def gen(rng, scenario, tier):
         for j in range(n0, len(rows)):
             rows[j] = [rows[j][0] + sd0 * 3.0 * (j - n0) / (len(rows) - n0)] + rows[j][1:]
         return {"cfg": cfg, "events": rows, "drift_positions": [n0]}
+    if scenario == "wide":
+        d = rng.randint(10, 14)
+        cfg.update(window_size=rng.choice([30, 40]), ev_threshold=0.999, divergence_metric=rng.choice(["intersection", "kl"]), sample_period=0.1)
+        rows, drifts = workload.mv_stream(rng, rng.randint(5 * cfg["window_size"], 8 * cfg["window_size"]), d, drift_rate=0.012)
+        # unequal spreads and shapes per feature, so that the components differ from one another
+        f = [1.0 + 0.6 * j for j in range(d)]
+        rows = [[round(v * f[j] + (abs(v) if j % 3 == 0 else 0.0), 4) for j, v in enumerate(r)] for r in rows]
+        return {"cfg": cfg, "events": rows, "drift_positions": drifts}
     if scenario == "long_step":
         # sample_period * window_size > 100: the documented cap of the check period (100 samples) binds
         w = rng.choice([210, 240, 300])
